@@ -120,6 +120,17 @@ def run(ctx):
         w = q.guard_true_dominates(g, s, lambda t: A.norm(t) == "not our_prefix or prefix == our_prefix", "T")
         ctx.ob("C33.D3-prefix-filter", cname(poll, None, "delivery only when no prefix is configured or the prefixes are equal"), w is None,
                "" if w is None else "frames of other publishers are delivered", nontrivial=True, witness=w, where=where(poll, s))
+    # what is delivered was derived from THIS frame: every path from the receive to the delivery defines each delivered local afresh
+    recv = [i for i, n in enumerate(g.nodes) if n.kind == "stmt" and n.stmt is not None and "self._socket.recv()" in A.norm(n.stmt) and isinstance(n.stmt, (ast.Assign, ast.AnnAssign))]
+    for s in deliver:
+        call = s.value
+        sent = [a.id for a in call.args[1:] if isinstance(a, ast.Name)]
+        ids = g.nodes_of(s)
+        for nm in sent:
+            w = g.must_pass(recv, lambda n, nm=nm: q._node_defs(n, nm) is not None, exits=ids) if recv and ids else ["<receive / delivery not found>"]
+            ctx.ob("C33.D2-delivered-from-this-frame", cname(poll, None, f"`{nm}` is assigned between receiving a frame and delivering it"), w is None,
+                   "" if w is None else f"`{nm}` can reach the delivery with a value from an EARLIER frame (or from before the loop): a frame whose own name / payload was rejected "
+                   "or skipped is delivered under what a previous frame left behind", nontrivial=True, witness=w[-6:] if w else None, where=where(poll, s))
     ok = any(A.norm(s) == "our_prefix = self._prefix" for s in poll.node.body)
     ctx.ob("C33.D3-prefix-filter", cname(poll, None, "our_prefix is this dispatcher's prefix"), ok, "" if ok else "prefix source changed", where=where(poll, poll.node))
     loops = [s for s in poll.node.body if isinstance(s, ast.While)]
@@ -137,6 +148,9 @@ CLAIM = {
 
 Z = "callbacks/zmq.py"
 MUTANTS = [
+    ("the enum lookup is skipped for a repeated name (seed C33-c)",
+     [(Z, "        our_prefix = self._prefix  # local var to save an attribute lookup\n", "        our_prefix = self._prefix  # local var to save an attribute lookup\n        doc_name = None\n"),
+      (Z, "                try:\n                    doc_name = DocumentNames[name]\n", "                try:\n                    if name != \"\":\n                        doc_name = DocumentNames[name]\n")], "C33.D2"),
     ("reader splits once", [(Z, "                prefix, name, doc = message.split(b\" \", 2)", "                prefix, name, doc = message.split(b\" \", 1)")], "C33.D1"),
     ("document name looked up outside the try (revert of F-9)",
      [(Z, "                try:\n                    doc_name = DocumentNames[name]\n                except KeyError as e:\n                    if self._strict:\n                        raise Bluesky0MQDecodeError from e\n                    else:\n                        print(\n                            f\"The name {name} is not a known document name. \"\n                            \"Dropping message on the floor and continuing. \"\n                            f\"\\n\\n{e}\"\n                        )\n                        continue\n                self.loop.call_soon(self.process, doc_name, doc)",
